@@ -12,6 +12,8 @@
 //!   J compiles   <segwitv0|tap> <policy> <Ok|Err:kind|PANIC>        (policies with <= 4 leaves: the Lean side
 //!                                                                   decides whether the policy is in the class that MUST compile)
 //!   J trlift     <entry> <policy> <unspendable key id|-> <lift of the compiled tr descriptor, internal key included>
+//!   J lift       <target> <policy> - <the library's lift of a compiled miniscript / non-tr descriptor>
+//!   J desckind   <requested DescriptorCtx> <policy> <DescriptorType returned>
 //!   C sane       <ctx> <ast>                                       (model of validate(Ctx::SANE))
 //!
 //! Policies are built over the table keys (`full_key(i)`, `xonly_key(200+i)`), table hashes
@@ -102,6 +104,28 @@ fn has_const(c: &CA) -> bool {
     }
 }
 
+/// the spending policy a miniscript fragment stands for (wrappers are transparent): used to push
+/// the SEMANTICS of `ast::dimension_corpus` through the compiler.  Key ids are reduced to the
+/// compressed table (0..99); raw key hashes have no policy form.
+fn policy_of_node(n: &Node) -> Option<CA> {
+    use Node::*;
+    let k = |i: &u32| CA::Leaf(A::Key(i % 100));
+    let hk = |h: &HK| match h { HK::Sha256 => 0u8, HK::Hash256 => 1, HK::Ripemd160 => 2, HK::Hash160 => 3 };
+    Some(match n {
+        True => CA::Leaf(A::Triv), False => CA::Leaf(A::Unsat),
+        PkK(i) | PkH(i) => k(i),
+        RawPkH(_) => return None,
+        After(t) => CA::Leaf(A::After(*t)), Older(t) => CA::Leaf(A::Older(*t)),
+        Hash(h, i) => CA::Leaf(A::Hash(hk(h), *i)),
+        Alt(x) | Swap(x) | Check(x) | DupIf(x) | Verify(x) | NonZero(x) | ZeroNotEqual(x) => policy_of_node(x)?,
+        AndV(a, b) | AndB(a, b) => CA::And(vec![policy_of_node(a)?, policy_of_node(b)?]),
+        OrB(a, b) | OrD(a, b) | OrC(a, b) | OrI(a, b) => CA::Or(vec![(1, policy_of_node(a)?), (1, policy_of_node(b)?)]),
+        AndOr(a, b, c) => CA::Or(vec![(1, CA::And(vec![policy_of_node(a)?, policy_of_node(b)?])), (1, policy_of_node(c)?)]),
+        Thresh(kk, xs) => CA::Thresh(*kk, xs.iter().map(policy_of_node).collect::<Option<Vec<_>>>()?),
+        Multi(kk, ks) | SortedMulti(kk, ks) | MultiA(kk, ks) | SortedMultiA(kk, ks) => CA::Thresh(*kk, ks.iter().map(k).collect()),
+    })
+}
+
 fn n_leaves(c: &CA) -> usize {
     match c {
         CA::Leaf(_) => 1,
@@ -187,8 +211,15 @@ fn from_ms<Pk: KeyOf + Kid8, Ctx: ScriptContext>(ms: &Miniscript<Pk, Ctx>, ann: 
     })
 }
 
-/// canonical wire form of the library's lift of a descriptor over the table atoms
-fn sem_wire(p: &Semantic<PublicKey>) -> Option<String> {
+fn n_atoms_wire(pw: &str) -> usize {
+    pw.matches("pk(").count() + pw.matches("older(").count() + pw.matches("after(").count()
+        + pw.matches("sha256(").count() + pw.matches("hash256(").count() + pw.matches("hash160(").count() + pw.matches("ripemd160(").count()
+}
+
+fn sem_wire(p: &Semantic<PublicKey>) -> Option<String> { sem_wire_g(p) }
+
+/// canonical wire form of the library's lift of a miniscript / descriptor over the table atoms
+fn sem_wire_g<Pk: KeyOf + Kid8>(p: &Semantic<Pk>) -> Option<String> {
     Some(match p {
         Semantic::Unsatisfiable => "UNSATISFIABLE".into(),
         Semantic::Trivial => "TRIVIAL".into(),
@@ -201,11 +232,48 @@ fn sem_wire(p: &Semantic<PublicKey>) -> Option<String> {
         Semantic::Hash160(h) => format!("hash160({})", hash_id(HK::Hash160, h.as_ref())?),
         Semantic::Thresh(t) => {
             let mut s = format!("thresh({}", t.k());
-            for x in t.iter() { s.push(','); s.push_str(&sem_wire(x)?); }
+            for x in t.iter() { s.push(','); s.push_str(&sem_wire_g(x)?); }
             s.push(')');
             s
         }
     })
+}
+
+/// the wrapper chains of a compiled output in the library's own notation (`snl`, `ajc`, `t`, …):
+/// `l:X` = or_i(0,X), `u:X` = or_i(X,0), `t:X` = and_v(X,1); a chain ends at the first
+/// non-wrapper.  Used for the distribution only (which casts reach the judge in which context).
+fn towers(n: &Node) -> Vec<String> {
+    fn chain(n: &Node, acc: &mut String) -> Option<Node> {
+        use Node::*;
+        match n {
+            Alt(x) => { acc.push('a'); chain(x, acc) }
+            Swap(x) => { acc.push('s'); chain(x, acc) }
+            Check(x) => { acc.push('c'); chain(x, acc) }
+            DupIf(x) => { acc.push('d'); chain(x, acc) }
+            Verify(x) => { acc.push('v'); chain(x, acc) }
+            NonZero(x) => { acc.push('j'); chain(x, acc) }
+            ZeroNotEqual(x) => { acc.push('n'); chain(x, acc) }
+            OrI(a, b) if **a == False => { acc.push('l'); chain(b, acc) }
+            OrI(a, b) if **b == False => { acc.push('u'); chain(a, acc) }
+            AndV(a, b) if **b == True => { acc.push('t'); chain(a, acc) }
+            other => Some(other.clone()),
+        }
+    }
+    fn rec(n: &Node, out: &mut Vec<String>) {
+        use Node::*;
+        let mut acc = String::new();
+        let inner = chain(n, &mut acc).unwrap();
+        if !acc.is_empty() { out.push(acc); }
+        match &inner {
+            AndV(a, b) | AndB(a, b) | OrB(a, b) | OrD(a, b) | OrC(a, b) | OrI(a, b) => { rec(a, out); rec(b, out) }
+            AndOr(a, b, c) => { rec(a, out); rec(b, out); rec(c, out) }
+            Thresh(_, xs) => for x in xs { rec(x, out) },
+            _ => {}
+        }
+    }
+    let mut v = vec![];
+    rec(n, &mut v);
+    v
 }
 
 fn guard<T>(f: impl FnOnce() -> T) -> Option<T> { catch_unwind(AssertUnwindSafe(f)).ok() }
@@ -261,6 +329,11 @@ struct Run<'a> {
     /// emit `J refuses` for every policy (dimension cells); otherwise only for policies with a
     /// constant or without any key, the ones that can be in the class at all besides key kinds
     all_refuses: bool,
+    /// designated corpora: every tr output is observed a second time AFTER USE (spend_info(),
+    /// script_pubkey(), clone) and judged again
+    used_state: bool,
+    /// skip the taproot entry points (cast family: about the miniscript compiler proper)
+    no_tr: bool,
 }
 
 impl<'a> Run<'a> {
@@ -307,8 +380,18 @@ impl<'a> Run<'a> {
         };
         self.programs += 1;
         node.count_frags(self.out);
+        for t in towers(&node) { self.out.count(&format!("cast {} {}", ctx.name(), t)); }
         let op = if self.big { "compiledsane" } else { "compiled" };
         self.out.line(&format!("J {} {} {} {} {}", op, target, pw, node.wire(), ann.join(";")), "ok");
+        // second route to the semantic claim: the library's own lift of the output
+        if !self.big && n_atoms_wire(pw) <= 12 {
+            let lifted = match guard(|| ms.lift()) {
+                None => "ERR:PANIC".to_string(),
+                Some(Err(e)) => format!("ERR:{}", err_kind2(&e)),
+                Some(Ok(q)) => sem_wire_g(&q).unwrap_or_else(|| "ERR:UNMAPPABLE".into()),
+            };
+            self.out.line(&format!("J lift {} {} - {}", target, pw, lifted), "ok");
+        }
         // re-parse from the own string form under the default (sane) rules
         let s = ms.to_string();
         let verdict = match guard(|| parse(&s)) {
@@ -331,6 +414,19 @@ impl<'a> Run<'a> {
     }
 
     fn judge_tr(&mut self, entry: &str, pw: &str, desc: &Descriptor<PublicKey>) {
+        self.judge_tr_once(entry, pw, desc);
+        if self.used_state && !entry.starts_with("used:") {
+            // fill the lazily computed parts (Tr caches its spend info), then look again - at the
+            // same object and at a clone of the used object
+            let _ = guard(|| { let _ = desc.script_pubkey(); if let Descriptor::Tr(t) = desc { let _ = t.spend_info(); } });
+            self.judge_tr_once(&format!("used:{}", entry), pw, desc);
+            let cl = desc.clone();
+            let same = if cl == *desc && cl.to_string() == desc.to_string() { "same" } else { "clone-differs" };
+            self.out.line(&format!("J reparse used-clone:{} {} {} {}/sane", entry, pw, cl.to_string(), same), "ok");
+        }
+    }
+
+    fn judge_tr_once(&mut self, entry: &str, pw: &str, desc: &Descriptor<PublicKey>) {
         let tr = match desc { Descriptor::Tr(t) => t, _ => { self.out.line(&format!("J compiledtr {} {} NOT-TR - -", entry, pw), "ok"); return; } };
         let ik = match tr.internal_key().kid() {
             Some(i) if i == self.unsp => "UNSPENDABLE".to_string(),
@@ -401,8 +497,18 @@ impl<'a> Run<'a> {
             Descriptor::Tr(_) => self.judge_tr(&format!("desc-{}", kind), pw, desc),
             _ => { self.out.line(&format!("J compiled unexpected:{} {} OTHER -", kind, pw), "ok"); }
         }
+        self.out.line(&format!("J desckind {} {} {:?}", kind, pw, desc.desc_type()), "ok");
         // the descriptor wrapper itself must re-parse to an equal descriptor
         if !matches!(desc, Descriptor::Tr(_)) {
+            // Descriptor::lift dispatches on the wrapper (Bare | Sh | Wsh | sh(wsh))
+            if n_atoms_wire(pw) <= 12 {
+                let lifted = match guard(|| desc.lift()) {
+                    None => "ERR:PANIC".to_string(),
+                    Some(Err(e)) => format!("ERR:{}", err_kind2(&e)),
+                    Some(Ok(q)) => sem_wire(&q).unwrap_or_else(|| "ERR:UNMAPPABLE".into()),
+                };
+                self.out.line(&format!("J lift desc-{} {} - {}", kind, pw, lifted), "ok");
+            }
             let s = desc.to_string();
             let verdict = match guard(|| Descriptor::<PublicKey>::from_str(&s)) {
                 None => "PANIC".to_string(),
@@ -470,10 +576,10 @@ impl<'a> Run<'a> {
         if !self.tr_only {
         self.compile_ms::<PublicKey, Segwitv0>(CtxK::Segwitv0, c, &|s| Miniscript::from_str(s));
         self.compile_ms::<XOnlyPublicKey, Tap>(CtxK::Tap, &remap(c, 200), &|s| Miniscript::from_str(s));
-        if !light {
-            self.compile_ms::<PublicKey, BareCtx>(CtxK::Bare, c, &|s| Miniscript::from_str(s));
-            self.compile_ms::<PublicKey, Legacy>(CtxK::Legacy, c, &|s| Miniscript::from_str(s));
-        }
+        // every policy goes through all four contexts (`light` only drops the extra max_leaves
+        // variants of compile_tr_native)
+        self.compile_ms::<PublicKey, BareCtx>(CtxK::Bare, c, &|s| Miniscript::from_str(s));
+        self.compile_ms::<PublicKey, Legacy>(CtxK::Legacy, c, &|s| Miniscript::from_str(s));
         }
         let pw = ca_wire(c);
         let pol: Concrete<PublicKey> = match build(c) { Some(p) => p, None => return };
@@ -488,8 +594,11 @@ impl<'a> Run<'a> {
             ("tr-unsp", Box::new(move || DescriptorCtx::Tr(Some(unsp)))),
         ];
         for (kind, mk) in dctxs.iter() {
-            if light && !matches!(*kind, "shwsh" | "tr-unsp") { continue; }
             if self.tr_only && !kind.starts_with("tr-") { continue; }
+            if self.no_tr && kind.starts_with("tr-") { continue; }
+            // sampled policies of the quick tier: bare (nearly always NonStandardBareScript) and wsh
+            // (same compilation as sh(wsh)) are left to the exhaustive and designated corpora
+            if light && matches!(*kind, "bare" | "wsh" | "tr-none") { continue; }
             let what = format!("desc-{}", kind);
             // the type parameter of compile_to_descriptor is a phantom (the descriptor kind fixes the context)
             let r = self.timed(&what, &pw, || pol.compile_to_descriptor::<Segwitv0>(mk()));
@@ -502,6 +611,7 @@ impl<'a> Run<'a> {
             }
         }
         // taproot entry points
+        if self.no_tr { return; }
         for (uk, un) in [(None, "none"), (Some(unsp), "unsp")] {
             let what = format!("tr-{}", un);
             let r = self.timed(&what, &pw, || pol.compile_tr(uk));
@@ -686,12 +796,15 @@ pub fn run(out: &mut Out, thorough: bool, seed: u64) {
         for n in ast::dimension_corpus(ctx) { with_ctx!(ctx, sane_line(out, ctx, &n)); }
     }
 
-    let mut run = Run { out, programs: 0, slowest_ms: 0, slowest: String::new(), tr_only: false, panic_obs: None, big: false, unsp: UNSPENDABLE, no_native: false, all_refuses: false };
+    let mut run = Run { out, programs: 0, slowest_ms: 0, slowest: String::new(), tr_only: false, panic_obs: None, big: false, unsp: UNSPENDABLE, no_native: false, all_refuses: false, used_state: false, no_tr: false };
     let mut n_pol = 0u64;
     let mut seen: BTreeSet<String> = BTreeSet::new();
     let t_start = Instant::now();
     let budget_s: u64 = if thorough { 900 } else { 150 };   // a guard against pathological slowness, not a target
 
+    // all designated corpora (everything before the bounded-exhaustive part): tr outputs are also
+    // observed and judged in the USED state
+    run.used_state = true;
     // hand-written corpus: the documented examples and the special cases of the compiler
     let key = |i: u32| CA::Leaf(A::Key(i));
     let corpus: Vec<CA> = vec![
@@ -1024,6 +1137,103 @@ pub fn run(out: &mut Out, thorough: bool, seed: u64) {
     run.big = false;
     run.out.note("t_after dimension cells", t_start.elapsed().as_millis().to_string());
 
+    // ------------------------------------------------------------------ route-and-state round
+    // (R2) refused TODAY, one reason each; judged like everything else the day one is accepted
+    run.all_refuses = true;
+    let h0l = CA::Leaf(A::Hash(0, 0));
+    let refused: Vec<(CA, &str)> = vec![
+        (CA::Or(vec![(1, key(0)), (1, older10.clone())]), "sigless branch (or)"),
+        (CA::Thresh(1, vec![key(0), key(1), older10.clone()]), "sigless branch (thresh 1)"),
+        (CA::Thresh(2, vec![key(0), h0l.clone(), older10.clone()]), "sigless branch (thresh 2 of 3, one key)"),
+        (older10.clone(), "no key at all"), (h0l.clone(), "no key at all"),
+        (CA::And(vec![key(0), CA::Or(vec![(1, h0l.clone()), (1, older10.clone())])]), "no non-malleable compilation (keyless or)"),
+        (CA::And(vec![key(0), CA::Thresh(2, vec![h0l.clone(), older10.clone(), CA::Leaf(A::After(100))])]), "no non-malleable compilation (keyless 2 of 3)"),
+        (CA::And(vec![key(0), CA::And(vec![CA::Leaf(A::Older(10)), CA::Leaf(A::Older(4_194_314))])]), "mixed relative locks"),
+        (CA::And(vec![key(0), CA::And(vec![CA::Leaf(A::After(100)), CA::Leaf(A::After(500_000_100))])]), "mixed absolute locks"),
+        (CA::Thresh(3, vec![key(0), CA::Leaf(A::Older(10)), CA::Leaf(A::Older(4_194_314))]), "mixed relative locks (thresh n of n)"),
+        (CA::Thresh(2, vec![CA::Leaf(A::After(100)), CA::Leaf(A::After(500_000_100)), key(0)]), "mixed absolute locks (thresh path)"),
+        (CA::And(vec![CA::And(vec![key(0), CA::Leaf(A::After(100))]), CA::And(vec![key(1), CA::Leaf(A::After(500_000_100))])]), "mixed absolute locks (two conjuncts)"),
+        // NOT mixed: different lock families, or the same unit twice - these must compile
+        (CA::And(vec![key(0), CA::And(vec![CA::Leaf(A::After(100)), CA::Leaf(A::Older(4_194_314))])]), "control: after-height with older-time"),
+        (CA::And(vec![key(0), CA::And(vec![CA::Leaf(A::After(500_000_100)), CA::Leaf(A::Older(10))])]), "control: after-time with older-height"),
+        (CA::And(vec![key(0), CA::And(vec![CA::Leaf(A::Older(10)), CA::Leaf(A::Older(20))])]), "control: two height locks"),
+        (CA::Or(vec![(1, key(0)), (1, key(0))]), "duplicate key (or)"),
+        (CA::And(vec![key(0), key(0)]), "duplicate key (and)"),
+        (CA::Thresh(2, vec![key(0), key(1), key(0)]), "duplicate key (multi special case)"),
+        (CA::Or(vec![(1, key(1)), (1, CA::And(vec![key(0), CA::Thresh(2, vec![key(2), key(0), key(3)])]))]), "duplicate key (pk and multi member)"),
+        (CA::And(vec![key(0), key(1), key(2)]), "non-binary and"), (CA::Or(vec![(1, key(0)), (1, key(1)), (1, key(2))]), "non-binary or"),
+        (CA::And(vec![key(0)]), "unary and"), (CA::Or(vec![(1, key(0))]), "unary or"),
+    ];
+    for (c, why) in &refused {
+        if seen.insert(ca_wire(c)) { n_pol += 1; run.out.count(&format!("policy refused-today: {}", why)); run.all_targets(c, false); }
+    }
+    run.all_refuses = false;
+    run.out.note("t_after refused-today", t_start.elapsed().as_millis().to_string());
+
+    // (R5) casts.  Policies whose cheapest compilation needs each wrapper / cast (t: l: u: a: s: c:
+    // d: v: j: n:) and casts over casts (snl:, sdv:, ajc:, jtv:, …), each at odds 1@9, 9@1 and 1@1 so
+    // that the choice between the casts flips, in every context and every descriptor wrapper.
+    // Which towers actually reach the judge in which context is recorded (`cast <ctx> <tower>`).
+    let a100l = CA::Leaf(A::After(100));
+    let kh = |i: u32| CA::And(vec![key(i), h0l.clone()]);
+    let ko = |i: u32| CA::And(vec![key(i), older10.clone()]);
+    let mut pairs: Vec<(CA, CA)> = vec![
+        (key(0), ko(1)), (key(0), kh(1)), (ko(0), kh(1)), (kh(0), kh(1)),
+        (CA::And(vec![key(0), key(1)]), CA::And(vec![key(2), key(3)])),
+        (ko(0), CA::Thresh(2, vec![key(1), key(2), key(3)])),
+    ];
+    if thorough {
+        pairs.extend(vec![
+            (key(0), key(1)), (ko(0), ko(1)), (key(0), CA::And(vec![key(1), key(2)])),
+            (key(0), CA::Thresh(2, vec![key(1), key(2), key(3)])),
+            (key(0), CA::And(vec![key(1), CA::And(vec![h0l.clone(), a100l.clone()])])),
+        ]);
+    }
+    let mut castp: Vec<CA> = vec![];
+    for (x, y) in &pairs {
+        for (wa, wb) in [(1usize, 9usize), (9, 1), (1, 1)] {
+            let o = CA::Or(vec![(wa, x.clone()), (wb, y.clone())]);
+            castp.push(o.clone());
+            castp.push(CA::And(vec![key(5), o.clone()]));                                  // or under and: or_c / t:or_c / andor
+            if thorough { castp.push(CA::And(vec![o.clone(), older10.clone()])); }
+            castp.push(CA::Or(vec![(wa, key(6)), (wb, CA::And(vec![key(5), o.clone()]))]));  // cast over cast
+        }
+    }
+    // thresholds force W-typed, dissatisfiable children: s:, a:, sdv:/snl: over locks, j: / n: over conjunctions
+    for k in 1..=3usize {
+        castp.push(CA::Thresh(k, vec![key(0), key(1), older10.clone()]));
+        castp.push(CA::Thresh(k, vec![key(0), ko(1), kh(2)]));
+        castp.push(CA::Thresh(k, vec![key(0), a100l.clone(), CA::And(vec![key(1), h0l.clone()])]));
+        castp.push(CA::Thresh(k, vec![ko(0), ko(1), ko(2)]));
+        castp.push(CA::Thresh(k, vec![key(0), CA::Or(vec![(1, key(1)), (1, key(2))]), CA::And(vec![key(3), key(4)])]));
+        castp.push(CA::Or(vec![(9, key(5)), (1, CA::Thresh(k, vec![key(0), key(1), older10.clone()]))]));
+        castp.push(CA::And(vec![key(5), CA::Thresh(k, vec![key(0), key(1), CA::And(vec![key(2), older10.clone()])])]));
+    }
+    for c in &castp {
+        // the four miniscript contexts (the descriptor wrappers would repeat the same compilations;
+        // they get every other corpus); the thorough tier adds them
+        if seen.insert(ca_wire(c)) {
+            n_pol += 1; run.out.count("policy cast family");
+            if thorough { run.no_tr = true; run.all_targets(c, false); run.no_tr = false; }
+            else { run.some_targets(c, &["ms-bare", "ms-legacy", "ms-segwitv0", "ms-tap"]); }
+        }
+    }
+    run.out.note("t_after cast family", t_start.elapsed().as_millis().to_string());
+
+    // (R1) the semantics of the designated fragment corpus (ast::dimension_corpus, wrapper towers
+    // included) as policies: all hash kinds, both lock units, thresholds with lock children, …
+    let mut n_dim = 0;
+    for ctx in [CtxK::Segwitv0, CtxK::Tap] {
+        for n in ast::dimension_corpus(ctx) {
+            if let Some(c) = policy_of_node(&n) {
+                if n_leaves(&c) > 8 { continue; }
+                if seen.insert(ca_wire(&c)) { n_pol += 1; n_dim += 1; run.out.count("policy of a dimension-corpus fragment"); run.all_targets(&c, true); }
+            }
+        }
+    }
+    run.out.note("dimension_corpus_policies", n_dim.to_string());
+    run.out.note("t_after route-and-state", t_start.elapsed().as_millis().to_string());
+
     // rare branches: with extreme odds the compiler trades witness size for script size, which
     // is where its special cases (thresh -> multi / multi_a, andor, or_i orderings) are actually
     // chosen.  Every k-of-n over keys (n <= 4) and every depth-1 shape over keys, as the 1-in-1000
@@ -1051,6 +1261,7 @@ pub fn run(out: &mut Out, thorough: bool, seed: u64) {
     }
     run.out.note("t_after policy rare-branch odds", t_start.elapsed().as_millis().to_string());
 
+    run.used_state = false;
     // bounded-exhaustive: every shape of depth <= 1 over <= 4 leaves x every kind vector; depth 2
     // sampled (quick) / complete over the main kinds (thorough)
     let pool_main = [Kind::Key, Kind::Hash, Kind::After, Kind::Older];
@@ -1120,5 +1331,5 @@ pub fn run(out: &mut Out, thorough: bool, seed: u64) {
     out.note("policies", n_pol.to_string());
     out.note("slowest_compile", slow);
     out.note("distinct_nontrivial", programs.to_string());
-    out.note("domain", "concrete policies (all shapes of depth <= 1 over <= 4 leaves x all kind vectors {key,hash,after,older}; depth-2 shapes sampled; random depth <= 4 with <= 8 atoms; odds {1,3,9} and 99/999 on rare branches; every k) x targets {compile::<Bare|Legacy|Segwitv0|Tap>, compile_to_descriptor(Bare|Sh|Wsh|ShWsh|Tr(None)|Tr(Some)), compile_tr, compile_tr_private_experimental, compile_tr_native(max_leaves 1|4|1024)}".into());
+    out.note("domain", "concrete policies: all shapes of depth <= 1 over <= 4 leaves x all kind vectors {key, hash (4 functions rotating), after, older}; depth-2 shapes sampled; random depth <= 4 with <= 8 atoms; odds {1,3,9}, 99/999 on rare branches, enum-only odds (0, usize::MAX); designated corpora: documented examples, near-twin siblings, repeated sub-policies / keys, cache-key near-equal siblings, 5-8-leaf taproot trees, constants / mixed locks, uncompressed and x-only keys, resource-limit boundaries (Legacy 520 bytes, 20/21 keys, 100 witness items), refused-today (one reason each: sigless, no non-malleable compilation, each pair of mixed lock units + unmixed controls, duplicate key per occurrence kind, non-binary / unary and-or), cast family (or / and-over-or / or-over-and-over-or / k-of-n with lock, hash and conjunction children at odds 1@9, 9@1, 1@1), the policies of ast::dimension_corpus (wrapper towers included). ROUTES, every policy (quick: the sampled depth-2 / random / rare-branch slices skip only compile_to_descriptor(Bare|Wsh|Tr(None)) and compile_tr_native(1|4)): compile::<BareCtx|Legacy|Segwitv0|Tap>, compile_to_descriptor(Bare|Sh|Wsh|ShWsh|Tr(None)|Tr(Some)), compile_tr, compile_tr_private_experimental, compile_tr_native(0|1|4|1024), each with and without an unspendable key. Every output: J compiled / compiledtr (annotations of every node, sane in the TARGET context, semantics), J desckind (descriptor kind asked for), J lift / trlift (the library's lift), J reparse; tr outputs of the designated corpora again in the USED state (after script_pubkey / spend_info) and as a clone of the used object".into());
 }
